@@ -7,9 +7,12 @@
   mock.get <x> <y>                 -> some:<c> | none | panic
   mock.c2ch <ty> <c,c,..>          -> char codes
   mock.ch2c <ty> <code,code,..>    -> colours, `p` where `char_to_color` panics
+  mock.types                       -> the source's `ColorMapping` types (EG.Generated.MockTypes) by stream name, `?` if unknown
 -/
 import EG.Driver.Util
 import EG.Model.MockDisplay
+import EG.Model.MockTypes
+import EG.Generated.MockTypes
 namespace EG.Driver
 open EG EG.Mock
 
@@ -19,6 +22,12 @@ def mockCT : String → Option CT
   | "bgr555" => some .bgr555 | "rgb565" => some .rgb565 | "bgr565" => some .bgr565
   | "rgb888" => some .rgb888 | "bgr888" => some .bgr888
   | _ => none
+
+private def mockTyName : CT → String
+  | .binary => "binary" | .gray2 => "gray2" | .gray4 => "gray4" | .gray8 => "gray8"
+  | .rgb332 => "rgb332" | .rgb444 => "rgb444" | .rgb555 => "rgb555"
+  | .bgr555 => "bgr555" | .rgb565 => "rgb565" | .bgr565 => "bgr565"
+  | .rgb888 => "rgb888" | .bgr888 => "bgr888"
 
 def mockFnv (s : String) : Nat :=
   (s.toUTF8.foldl (fun (h : UInt64) b => (h ^^^ b.toUInt64) * 0x100000001b3) 0xcbf29ce484222325).toNat
@@ -139,6 +148,11 @@ def handleMock (stream : String) (t : Toks) : Option String :=
     | none => some "panic"
     | some none => some "none"
     | some (some c) => some s!"some:{c}"
+  | "mock.types" =>
+    some (joinOr "," (Generated.MockTypes.mappingTypes.map (fun e =>
+      match ctOfRustName e.1 with
+      | some ct => mockTyName ct
+      | none => "?")))
   | "mock.c2ch" =>
     let (ty, t) := t.str
     match mockCT ty with
